@@ -1,6 +1,6 @@
 (* C14 — without --force, fix never destroys work that git cannot restore.
-   Model definitions used below: Model/GitGuard.v (find_repo_path, find_git_repo, git_guard, fp_abs,
-   denotes, clean_key, touches_dirty and the pinned variants), Model/Commit.v (finish_command: conflict
+   Model definitions used below: Model/GitGuard.v (find_repo_path, find_repo_path_abs, find_git_repo, in_work_tree,
+   in_no_work_tree, git_guard, fp_abs, denotes, clean_key, touches_dirty and the pinned / not-the-code variants), Model/Commit.v (finish_command: conflict
    abort -> git gate -> commit), Model/Provider.v (cpath, rpath, regular).
    go-git's status computation is an oracle: the gate sees its key set [gv_status]. *)
 From Regal Require Import Model.Commit.
@@ -40,13 +40,75 @@ Theorem c14_abs_root_is_clean :
 Proof. exact fp_abs_cpath. Qed.
 Print Assumptions c14_abs_root_is_clean.
 
-(* FindGitRepo (repaired): a repository is reported only if EVERY argument lies in it *)
+(* FindGitRepo (repaired), stated on the ARGUMENT list as the command line gives it: a repository is
+   reported only if EVERY argument (made absolute against the working directory) lies in it
+   COMPONENT-WISE -- its components are the repository's components followed by more ([in_work_tree]:
+   ds = rs ++ rest; "/w/pol-draft" does not lie in "/w/pol") --, that directory holds a .git
+   directory, and no directory between it and the argument holds a .git entry of its own (it is the
+   closest work tree around each argument).  [stat] is os.Stat on absolute paths, an oracle. *)
 Theorem c14_same_repository :
-  forall fuel stat dirs r,
-  find_git_repo fuel stat dirs = RepoAt r ->
-  forall d, In d dirs -> find_repo_path fuel stat d = RepoAt r.
-Proof. exact find_git_repo_uniform. Qed.
+  forall cwd fuel stat dirs r,
+  is_rooted cwd = true ->
+  find_git_repo cwd fuel stat dirs = RepoAt r ->
+  exists rs, r = cpath rs /\ Forall regular rs /\
+    forall d, In d dirs ->
+      exists ds, fp_abs cwd d = cpath ds /\ Forall regular ds /\ in_work_tree stat rs ds.
+Proof. exact same_repository. Qed.
 Print Assumptions c14_same_repository.
+
+(* "no git repo found" is answered only if every argument lies in no work tree at all; everything
+   else (arguments in different work trees, some inside and some outside, a .git that is not a
+   directory, a stat error) is an error: the gate refuses in all these cases ([git_guard]) *)
+Theorem c14_no_repository :
+  forall cwd fuel stat dirs,
+  is_rooted cwd = true ->
+  find_git_repo cwd fuel stat dirs = RepoNone ->
+  forall d, In d dirs ->
+    exists ds, fp_abs cwd d = cpath ds /\ Forall regular ds /\ in_no_work_tree stat ds.
+Proof. exact no_repository. Qed.
+Print Assumptions c14_no_repository.
+
+(* the walk-level reading: every argument's own walk gave the answer *)
+Theorem c14_same_walk_answer :
+  forall cwd fuel stat dirs r,
+  find_git_repo cwd fuel stat dirs = RepoAt r ->
+  forall d, In d dirs -> find_repo_path_abs cwd fuel stat d = RepoAt r.
+Proof. exact find_git_repo_uniform. Qed.
+Print Assumptions c14_same_walk_answer.
+
+(* [c14_same_repository] fails for a FindGitRepo that decides "inside the repository found already"
+   by a STRING prefix (/w/pol-draft starts with /w/pol): an argument in no work tree at all rides
+   along (class of seeded change C14-4) *)
+Theorem c14_same_repository_string_prefix_refuted :
+  exists cwd stat dirs d r,
+    In d dirs
+    /\ find_git_repo_strprefix cwd 8 stat dirs = RepoAt r
+    /\ find_repo_path_abs cwd 8 stat d = RepoNone
+    /\ find_git_repo cwd 8 stat dirs = RepoErr.
+Proof. exact same_repository_string_prefix_refuted. Qed.
+Print Assumptions c14_same_repository_string_prefix_refuted.
+
+(* ... and says nothing about an argument when the question is asked about another list (the project
+   roots: config.GetPotentialRoots leaves out an argument without a bundle root of its own as soon
+   as another argument has one; class of seeded change C14-3) *)
+Theorem c14_same_repository_other_list_refuted :
+  exists cwd stat args roots d r,
+    In d args /\ (forall x, In x roots -> In x args)
+    /\ find_git_repo cwd 8 stat roots = RepoAt r
+    /\ find_repo_path_abs cwd 8 stat d = RepoNone
+    /\ find_git_repo cwd 8 stat args = RepoErr.
+Proof. exact same_repository_other_list_refuted. Qed.
+Print Assumptions c14_same_repository_other_list_refuted.
+
+(* pinned behaviour (repaired in /repo): the walk ran on the argument as spelled; from /w/pol the
+   argument ../pol-draft (in no work tree) was answered with ".", the repository of the working
+   directory *)
+Theorem c14_find_git_repo_lexical_pinned_refuted :
+  exists cwd stat d,
+    find_git_repo_lexical 8 (fun p => stat (fp_abs cwd p)) [d] = RepoAt [46%N]
+    /\ find_git_repo cwd 8 stat [d] = RepoNone.
+Proof. exact find_git_repo_lexical_refuted. Qed.
+Print Assumptions c14_find_git_repo_lexical_pinned_refuted.
 
 (* Whatever the flags: an outcome other than success / half-way failure leaves the tree alone. *)
 Theorem c14_refusal_leaves_disk :
@@ -80,7 +142,7 @@ Theorem c14_find_git_repo_pinned_refuted :
   exists stat dirs d,
     In d dirs /\ find_repo_path 8 stat d = RepoNone
     /\ find_git_repo_pinned 8 stat dirs = RepoAt [47%N; 97%N]
-    /\ find_git_repo 8 stat dirs = RepoErr.
+    /\ find_git_repo [47%N] 8 stat dirs = RepoErr.
 Proof. exact find_git_repo_pinned_refuted. Qed.
 Print Assumptions c14_find_git_repo_pinned_refuted.
 
@@ -126,20 +188,27 @@ Definition ex_prov (modified : bool) : provider str :=
   {| pv_files := [(lit "/R/pol/x.rego", lit "A fixed")]; pv_modified := [lit "/R/pol/x.rego"];
      pv_deleted := []; pv_disk := [] |}.
 
-(* run from /R/pol with the argument "../pol": the walk finds ".." (with "." it finds nothing: the
-   walk never leaves "."); a dirty pol/x.rego is refused, a clean one is rewritten *)
+(* run from /R/pol: the arguments "../pol" and "." both find /R (the walk on the spelling found ".."
+   and nothing); a dirty pol/x.rego is refused, a clean one is rewritten; /R/pol lies in /R
+   component-wise with /R/.git a directory and no /R/pol/.git *)
 Example c14_guard_nonvacuous :
-  let stat := fun p => fs_stat ex_tree (fp_abs (lit "/R/pol") p) in
-  find_git_repo 16 stat [lit "../pol"] = RepoAt (lit "..")
-  /\ find_git_repo 16 stat [lit "."] = RepoNone
-  /\ fp_abs (lit "/R/pol") (lit "..") = cpath [lit "R"]
+  let stat := fs_stat ex_tree in
+  find_git_repo (lit "/R/pol") 16 stat [lit "../pol"; lit "."] = RepoAt (lit "/R")
+  /\ find_git_repo_lexical 16 (fun p => stat (fp_abs (lit "/R/pol") p)) [lit "../pol"] = RepoAt (lit "..")
+  /\ find_git_repo_lexical 16 (fun p => stat (fp_abs (lit "/R/pol") p)) [lit "."] = RepoNone
+  /\ in_work_tree stat [lit "R"] [lit "R"; lit "pol"]
   /\ finish_command {| fl_force := false; fl_dry_run := false |} (lit "/R/pol")
-        {| gv_repo := RepoAt (lit ".."); gv_status := [lit "pol/x.rego"] |} [lit "/R"] ex_tree
+        {| gv_repo := RepoAt (lit "/R"); gv_status := [lit "pol/x.rego"] |} [lit "/R"] ex_tree
         (LDone (ex_prov true) new_report) [] [lit "/R/pol/x.rego"] = (OutGitRefused, ex_tree)
   /\ fst (finish_command {| fl_force := false; fl_dry_run := false |} (lit "/R/pol")
-        {| gv_repo := RepoAt (lit ".."); gv_status := [lit "other.rego"] |} [lit "/R"] ex_tree
+        {| gv_repo := RepoAt (lit "/R"); gv_status := [lit "other.rego"] |} [lit "/R"] ex_tree
         (LDone (ex_prov true) new_report) [] [lit "/R/pol/x.rego"]) = OutDone.
-Proof. cbv zeta. repeat split; vm_compute; reflexivity. Qed.
+Proof.
+  cbv zeta. repeat split; try (vm_compute; reflexivity).
+  exists [lit "pol"]. split; [reflexivity|]. split; [vm_compute; reflexivity|].
+  intros m m' Hm Hne. destruct m as [|x m]; [contradiction|].
+  destruct m; [|destruct m; discriminate]. injection Hm as <- _. vm_compute. reflexivity.
+Qed.
 
 (* [faithful] is satisfiable with a resolve that is not the identity: everything below the link /L *)
 Example c14_faithful_nonvacuous :
